@@ -39,7 +39,7 @@ def floors(tier):
     return {"compared": 30000, "accepted": 8000, "rejected": 8000, "mutated_depth2plus": 1000,
             "metaschemas_self_accepted": 4, "keyword_shape_cells": 3000, "calibration_cases": 2000,
             "dialects_registered": 4, "checked_after_dialect_registration": 400,
-            "respelled_duplicates_in_unique_arrays": 500, "format_only_objections": 50, "checked_while_a_listing_is_pending": 1000}
+            "respelled_duplicates_in_unique_arrays": 500, "format_only_objections": 50, "checked_while_a_listing_is_pending": 1000, "decimal_valued_candidates": 20}
 
 
 def load_metaschemas():
@@ -226,6 +226,21 @@ def run(ctx):
             for cand in ({"pattern": bad}, {"patternProperties": {bad: {}}}, {"properties": {"a": {"pattern": bad}}},
                          {"$schema": bad}, {impl.IDKW[d]: bad}, {"items": [{"$ref": bad}]}):
                 compare(ctx, O, d, cand, tag="(only a `format` in the metaschema could object)")
+    # numbers handed over as decimal.Decimal (json.loads(text, parse_float=Decimal)) where the metaschema says "number"
+    from decimal import Decimal
+    for d in impl.DRAFTS:
+        mo = "divisibleBy" if d == 3 else "multipleOf"
+        for val in (Decimal("0.25"), Decimal("3"), Decimal("-1.5"), Decimal("1e2"), Decimal("0"), Decimal("-0.01")):
+            idx += 1
+            if not ctx.mine(idx):
+                continue
+            ctx.count("decimal_valued_candidates")
+            cands = [{"minimum": val}, {"maximum": val, "minimum": Decimal("-7.5")}, {mo: val}, {"properties": {"a": {"maximum": val}}},
+                     {"items": [{mo: val}]}, {"enum": [val, 1]}, {"default": val, "maxLength": val}, {"minItems": val}]
+            if d >= 6:
+                cands += [{"exclusiveMinimum": val}, {"const": val}, {"exclusiveMaximum": val, "contains": {"minimum": val}}]
+            for cand in cands:
+                compare(ctx, O, d, cand, tag="(Decimal-valued keywords)")
     rng = ctx.rng
     dialect_phase(ctx, random.Random(1111))
     for i in range(ctx.scale(1500, 25000)):
